@@ -123,32 +123,46 @@ class ExprBuilder:
         if best is None:
             return None
         bp = dpos(best)
-        # no other def may lie on a path best -> use
+        # no other def o may lie on a path best -> o -> use that does not re-execute `best`
+
+        def nontrivial(src, dst, avoid):
+            seen = set()
+            st = [s for s in b.succs(src)]
+            while st:
+                x = st.pop()
+                if x in seen:
+                    continue
+                seen.add(x)
+                if x == dst:
+                    return True
+                if x in avoid:
+                    continue
+                st.extend(b.succs(x))
+            return False
         for o in ds:
             if o is best:
                 continue
-            op_ = dpos(o)
-            if op_[0] == bp[0] and op_[0] == up[0]:
-                if bp[1] < op_[1] < up[1]:
-                    return None
-                # same block but outside the window: could still be reached around a loop
-                if b.can_reach_nontrivial(bp[0], bp[0]):
-                    return None
+            po = dpos(o)
+            reach_o = (bp[0] == po[0] and bp[1] < po[1]) or nontrivial(bp[0], po[0], ())
+            if not reach_o:
                 continue
-            if op_[0] == bp[0]:
-                if op_[1] > bp[1] and (up[0] != bp[0]):
-                    return None
-                if b.can_reach_nontrivial(bp[0], bp[0]):
-                    return None
-                continue
-            if op_[0] == up[0] and op_[1] < up[1] and up[0] != bp[0]:
+            if po[0] == bp[0] and po[1] < bp[1]:
+                continue  # o is always followed by `best` in the same block
+            if po[0] == up[0] and po[1] < up[1]:
+                # straight line o .. use in one block: killed only if best sits in between
+                if bp[0] == po[0] and po[1] < bp[1] < up[1]:
+                    continue
                 return None
-            # o in another block: on a path best.bb -> o.bb -> use.bb ?
-            if b.can_reach(bp[0], op_[0]) and b.can_reach(op_[0], up[0]):
-                # allowed only if every such path re-passes `best` afterwards: approximate by
-                # requiring that o.bb cannot reach use.bb while avoiding best.bb
-                if op_[0] != bp[0] and b.can_reach(op_[0], up[0], avoid={bp[0]}) or up[0] == bp[0]:
-                    return None
+            # around the CFG: entering best's block re-executes best (kills o) -- unless best's
+            # block is the use's block and best comes after the use
+            if bp[0] == up[0] and bp[1] < up[1]:
+                # any entry into the use block passes best first
+                if po[0] != up[0]:
+                    continue
+                # o is in the same block after the use: must leave and re-enter -> passes best
+                continue
+            if nontrivial(po[0], up[0], {bp[0]}):
+                return None
         return best
 
     # ---- operands
@@ -808,4 +822,49 @@ def mut_arg_calls(body, eb=None):
         for k, (a, ti) in enumerate(zip(t["args"], t.get("arg_tys") or [])):
             if ti and ti.get("k") == "ref" and ti.get("mut"):
                 out.append((bb, t, name, k, eb.op(a)))
+    return out
+
+
+def origin_calls(body, operand, pred, eb=None, limit=400):
+    """call terminators (bb, term) that the value of `operand` derives from by def-use, for
+    which pred(callee_name) holds; the walk stops at such calls.  Flow-insensitive over multi-def
+    locals except that a self-referential update (x = x * c) is followed to the other defs."""
+    from .mir import callee_name as _cn
+    out = []
+    seen = set()
+    work = []
+
+    def push_op(o):
+        if isinstance(o, dict) and o.get("k") in ("copy", "move"):
+            work.append(o["place"]["local"])
+            for e in o["place"]["proj"]:
+                if e["k"] == "index":
+                    work.append(e["local"])
+    push_op(operand)
+    n = 0
+    while work and n < limit:
+        l = work.pop()
+        if l in seen:
+            continue
+        seen.add(l)
+        n += 1
+        for bb, idx, item in body.defs().get(l, []):
+            if body.is_cleanup(bb):
+                continue
+            if idx == "term":
+                c = item["callee"]
+                nm = _cn(c) if c["k"] == "fndef" else ""
+                if pred(nm):
+                    out.append((bb, item))
+                    continue
+                for a in item["args"]:
+                    push_op(a)
+            else:
+                rv = item["rv"]
+                for key in ("op", "a", "b"):
+                    push_op(rv.get(key))
+                for o in rv.get("ops", []):
+                    push_op(o)
+                if "place" in rv:
+                    work.append(rv["place"]["local"])
     return out
